@@ -30,6 +30,7 @@ import (
 	"crypto/x509"
 	"crypto/x509/pkix"
 	"encoding/base64"
+	"encoding/hex"
 	"encoding/json"
 	"encoding/pem"
 	"errors"
@@ -1181,6 +1182,31 @@ func (w *c05World) config(c map[string]any) map[string]any {
 	return conf
 }
 
+// c05Hexify spells every string of a value (member names and string values) as the hexadecimal form of its octets:
+// member names become hex, a string value becomes "s:" + hex; numbers, booleans and null stay as they are
+func c05Hexify(v any) any {
+	switch x := v.(type) {
+	case map[string]any:
+		res := make(map[string]any, len(x))
+		for k, e := range x {
+			res[hex.EncodeToString([]byte(k))] = c05Hexify(e)
+		}
+
+		return res
+	case []any:
+		res := make([]any, len(x))
+		for i, e := range x {
+			res[i] = c05Hexify(e)
+		}
+
+		return res
+	case string:
+		return "s:" + hex.EncodeToString([]byte(x))
+	}
+
+	return v
+}
+
 // one request: mint, execute, abstract. ok reports whether it ran inside one clock second.
 func (w *c05World) request(auth authenticators.Authenticator, cch cache.Cache, tokSpec map[string]any) (
 	res, abs, info map[string]any, ok bool, err error,
@@ -1219,7 +1245,10 @@ func (w *c05World) request(auth authenticators.Authenticator, cch cache.Cache, t
 	case sub == nil:
 		res = map[string]any{"verdict": "neither"}
 	default:
-		res = map[string]any{"verdict": "accept", "id": sub.ID, "attrs": map[string]any(sub.Attributes)}
+		// id_hex / attrs_hex: the octets of the subject id and of every attribute name and string value, so that no
+		// encoder or decoder between the authenticator and the comparison can make two different strings look alike
+		res = map[string]any{"verdict": "accept", "id": sub.ID, "attrs": map[string]any(sub.Attributes),
+			"id_hex": hex.EncodeToString([]byte(sub.ID)), "attrs_hex": c05Hexify(map[string]any(sub.Attributes))}
 	}
 
 	return res, w.abstract(token, present, t0), info, t0 == t1, nil
